@@ -233,7 +233,7 @@ def main(ctx):
         "are taken from the psABI documents",
         "initial words are valid instructions of the class the relocation applies to; arbitrary words "
         "are not judged", "Mach-O-only encoder MachOLow12 is out of scope",
-        "Miri run of the harness not performed (libwild's dependency tree does not build under Miri offline)"]
+        "the optional Miri run of the harness entry points was not attempted"]
     if ctx.replay is not None and str(ctx.replay.get("case", "")).startswith("pinned"):
         tools.wild()
         pinned_e2e(ctx)
